@@ -23,6 +23,11 @@ def main():
     if a.replay:
         sys.exit(mod.replay(a.replay))
     rep = core.Report(a.pid, a.tier, seed)
+    import threading
+    budget = int(os.environ.get('VERIF_BUDGET_S', '2400' if a.tier == 'quick' else '14400'))
+    t = threading.Timer(budget, lambda: (print(f"[{a.pid}] watchdog: time budget of {budget}s exceeded (exit 2, not a violation)", flush=True), os._exit(2)))
+    t.daemon = True
+    t.start()
     try:
         rc = mod.run(rep, a.tier, seed)
     except Exception:
